@@ -33,7 +33,8 @@ LEVEL_NOTE = ("trusted: numpy index composition as the map model, the tagged-dat
               "Don't-care: exports with basins=False; identifier mismatches (C14)")
 TECHNIQUE = ("runtime monitoring: provenance-tagged data + independently composed index-map model "
              "as oracle over generated export histories; recording wrapper on BasinProxyFeature")
-ASSUMPTIONS = ["referrers are produced by dclab's own export / writer (store_basin)"]
+ASSUMPTIONS = ["referrers are produced by dclab's own export / writer (store_basin); one variant "
+               "rewrites a definition without the 'mapping' key (documented to mean 'same')"]
 MIN_EVALS = {"c07.feature_equals_origin": 1500, "c07.proxy_getitem": 300,
              "c07.available": 300}
 WATCHDOG_S = {"quick": 400, "thorough": 3000}
@@ -288,6 +289,29 @@ def gen_map(rng, n_origin):
     return kind, m.astype(np.uint64)
 
 
+def strip_mapping_key(path, basin_name):
+    """Rewrite one basin definition of the file without its "mapping" key (raw h5py)."""
+    import hashlib
+    import json
+    import h5py
+    with h5py.File(path, "a") as h5:
+        grp = h5["basins"]
+        for key in list(grp):
+            lines = [ln.decode("utf-8") if isinstance(ln, bytes) else str(ln) for ln in grp[key][:]]
+            bdict = json.loads(" ".join(lines))
+            if bdict.get("name") != basin_name:
+                continue
+            assert bdict.get("mapping", "same") == "same"
+            bdict.pop("mapping", None)
+            data = json.dumps(bdict, indent=2)
+            del grp[key]
+            new_lines = data.split("\n")
+            width = max(len(ln.encode("utf-8")) for ln in new_lines)
+            grp.create_dataset(hashlib.md5(data.encode("utf-8")).hexdigest(),
+                               data=np.array([ln.encode("utf-8") for ln in new_lines],
+                                             dtype=f"S{width}"))
+
+
 def run_explicit(ctx, idx, rng, tmp):
     import dclab
     from vmon.gen import dataset as gd
@@ -295,9 +319,17 @@ def run_explicit(ctx, idx, rng, tmp):
     rid = f"mid-{idx:05d}"
     o1 = write_origin(tmp / "o1.rtdc", 1, n1, rng, rid)
     kind, bmap = gen_map(rng, n1)
+    # every fourth explicit case: the first basin is unmapped and its definition is rewritten in the form
+    # older dclab versions / other software store (no "mapping" key, which dclab documents to
+    # mean "same"), next to mapped basins written by the current writer
+    legacy = idx % 10 == 8
+    if legacy:
+        kind, bmap = "same (definition without mapping key)", np.arange(n1, dtype=np.uint64)
     nref = len(bmap)
     meta = gd.complete_meta(rng, {}, nref, (H, W), None)
-    meta["experiment"]["run identifier"] = rid + ("-x1" if rng.random() < 0.5 else "")
+    # (an unmapped basin must carry exactly the referrer's identifier, a mapped one a prefix)
+    meta["experiment"]["run identifier"] = rid + ("-x1" if rng.random() < 0.5 and not legacy
+                                                  else "")
     stored = {}
     override = {}
     if rng.random() < 0.5:
@@ -309,12 +341,15 @@ def run_explicit(ctx, idx, rng, tmp):
     feats_sub = None if rng.random() < 0.6 else ["area_um", "image", "trace", "deform"]
     two = bool(rng.random() < 0.35)
     internal = bool(rng.random() < 0.3)
+    if legacy and not (two or internal):
+        internal = True
     with dclab.RTDCWriter(ref, mode="reset") as hw:
         hw.store_metadata(meta)
         for f, d in stored.items():
             hw.store_feature(f, d)
         hw.store_basin(basin_name="b1", basin_type="file", basin_format="hdf5",
-                       basin_locs=[tmp / "o1.rtdc"], basin_map=bmap, basin_feats=feats_sub)
+                       basin_locs=[tmp / "o1.rtdc"], basin_map=None if legacy else bmap,
+                       basin_feats=feats_sub)
         expect2 = None
         if two:
             n2 = int(rng.integers(2, 20))
@@ -331,6 +366,9 @@ def run_explicit(ctx, idx, rng, tmp):
             hw.store_basin(basin_name="bi", basin_type="internal", basin_format="h5dataset",
                            basin_locs=["basin_events"], basin_map=imap,
                            internal_data=idata, basin_feats=["userdef3"])
+    if legacy:
+        strip_mapping_key(ref, "b1")
+        ctx.count("legacy_definitions_without_mapping_key")
     case = {"kind": "explicit", "map": kind, "n_origin": n1, "n_ref": nref,
             "features_restricted": feats_sub, "two_basins": two, "internal": internal,
             "stored": sorted(stored)}
